@@ -46,9 +46,16 @@ def finding_class(units, ans):
             text = lines[int(m.group(2)) - 1].strip()
             if text.endswith("(") or text.endswith("{"):
                 text += " " + lines[int(m.group(2))].strip()
+            # ... and the function it is in (`unreachable!()` is written in many places)
+            fn = "?"
+            for j in range(int(m.group(2)) - 1, -1, -1):
+                mm = re.match(r"\s*(?:pub(?:\([a-z]+\))?\s+)?fn\s+(\w+)", lines[j])
+                if mm:
+                    fn = mm.group(1)
+                    break
         except Exception:
-            text = "line %s" % m.group(2)
-        return "panic:%s:%s" % (rel, text)
+            text, fn = "line %s" % m.group(2), "?"
+        return "panic:%s:%s:%s" % (rel, fn, text)
     if ans.startswith("crash"):
         if len(units) > 1:
             seen = set()
@@ -82,6 +89,13 @@ def finding_class(units, ans):
                            env=env_for_cargo())
         first = p.stderr.decode("utf8", "replace").strip().split("\n")[0] if p.stderr else ""
         # is the crash caused by formatting an aggregate (print!/format! of an array, slice or structure)?
+        # (the array itself replaced by its length: if the program then compiles, formatting the array was the cause)
+        ra = re.compile(r"(\b(?:print|format|eprint|panic)!\([^\n]*?[(,]\s*)([A-Za-z_][A-Za-z0-9_.]*)(\s*[,)])")
+        if any(ra.search(src) for _, src in units):
+            rq2 = "alpha\tir\t" + "\t".join(x for nm, src in units for x in (nm, esc(ra.sub(r"\1|\2|\3", src))))
+            a2 = run_harness_serial([rq2])[0]
+            if a2.startswith("ok"):
+                return "crash:format-of-aggregate"
         rx = re.compile(r"^[^\n]*\b(?:print|format|eprint|panic)!\(\s*[A-Za-z_][A-Za-z0-9_.]*\s*[,)][^\n]*$", re.M)
         if any(rx.search(src) for _, src in units):
             rq2 = "alpha\tir\t" + "\t".join(x for nm, src in units for x in (nm, esc(rx.sub("", src))))
@@ -173,6 +187,15 @@ def main():
         inputs.append([("c.pn", src)])
     for src in faultgen.constant_hazards():
         inputs.append([("k.pn", src)])
+    # one fault (24 kinds) in every expression position (35 kinds: operands of unary and binary operators, casts, indices,
+    # arguments, literals, both sides of assignments, conditions, return values, builtin arguments, constants): the fault
+    # must be REPORTED from wherever it sits (a poisoned operand once made the resolver return early with no error at all)
+    for _tag, src in faultgen.fault_context_matrix():
+        inputs.append([("f.pn", src)])
+    # one faulty statement (ill-typed assignees, variables declared without type or value and then used in every way) or
+    # one faulty constant (cycles through structure and array literals, unknown names, ill-typed values), used and unused
+    for _tag, src in faultgen.statement_fault_programs():
+        inputs.append([("s.pn", src)])
     # every kind of argument, plain and in one or two pairs of parentheses, for every kind of parameter
     PK = [("x: []i32", ["a", "[1, 2]", "sl"]), ("x: &[]i32", ["&a"]), ("x: &[3]i32", ["&a"]), ("x: &i32", ["&v"]), ("x: i32", ["v", "1", "a[0]"]),
           ("x: S", ["st", "S { m: 1 }"]), ("x: &S", ["&st"]), ("x: [][2]i32", ["g"]), ("x: []S", ["ss"])]
